@@ -250,6 +250,15 @@ class Gen:
             return "(" + self.sp().strip(" ") + self.expr(depth - 1, kinds) + ")"
         if c < 0.82:
             return r.choice(["-", "+", "- ", "--", "-+", "+-"]) + self.expr(depth - 1, kinds)
+        if c < 0.85 and "i" in kinds and "f" in kinds:
+            # chains of divisions and multiplications whose left-to-right intermediate values are harmless while another
+            # grouping (the product of the divisors, a product before the division) leaves int64 or the float range
+            big = [r.choice(["3037000500", "4294967296", "2147483648", "10000000000", "4611686018427387904", "3037000499", "65536*65536"]) for _ in range(3)]
+            if self.coin(0.4):
+                big = [r.choice(["1e200", "2.5e160", "1E180", "4e-170", "1e-200"]) for _ in range(3)]
+            small = self.atom("if") if self.coin(0.5) else r.choice(["1", "3", "7.5", "-2"])
+            self.tags.add("scale-chain")
+            return r.choice(["%s/%s/%s", "%s/%s/%s/%s", "%s*%s/%s/%s", "%s/%s*%s/%s", "%s/%s/%s*%s", "(%s)/%s/%s"]).replace("%s", "{}").format(small, *big)
         if self.o["funcs"]:
             f = r.choice(FUNCS)
             saved = self.o["params"]
